@@ -130,12 +130,13 @@ Ante(m, g, ev) ==
     [] m = "C11_move"           -> ok /\ o.op \in Moves
     [] m = "C11_approve"        -> ok /\ o.op = "approve"
     [] m = "C11_cleared"        -> ok /\ o.op \in Moves
-    \* somebody other than the owner acted, and not through the token's own approval; or an
-    \* operator approval was given
+    \* an operator approval was given; or somebody who is a live operator of ANOTHER account acted on
+    \* this owner's token without holding the token's own approval
     [] m = "C11_operator_scope" -> ok /\ \/ o.op = "approve_for_all"
                                          \/ /\ o.op \in Moves \cup {"approve"}
                                             /\ own # NoOne /\ p # own
                                             /\ (o.op = "approve" \/ ApprovedG(g, o.id, ev.now) # p)
+                                            /\ \E x \in DOMAIN g.opr : x[2] = p /\ x[1] # own /\ g.opr[x] >= ev.now
     [] m = "C11_expiry"         -> TRUE
 
 \* g2 = GNext(g, ev), handed in so that it is computed once per event
